@@ -39,6 +39,8 @@ type simProvider struct {
 	served    []string
 	// nested: the served configuration holds a reference to a value of the second provider (${simv:...})
 	nested bool
+	// handedOut: values returned by Retrieve (each has a closer that must run exactly once)
+	handedOut int
 	// servedBad: the most recent Retrieve served something that cannot be brought up (error, invalid configuration)
 	servedBad bool
 }
@@ -97,6 +99,7 @@ func (p *simProvider) Retrieve(_ context.Context, _ string, watcher confmap.Watc
 	if p.nextErr != nil {
 		return nil, p.nextErr
 	}
+	p.handedOut++
 	m := p.next.confMap()
 	if p.nested {
 		m["service"].(map[string]any)["telemetry"].(map[string]any)["metrics"].(map[string]any)["level"] = "${simv:level}"
@@ -633,6 +636,16 @@ func (s *c20Sim) finalChecks() {
 		s.vprov.mu.Unlock()
 		if vsh != 1 {
 			r.Failf("provider", fmt.Sprintf("second-provider-shut-down-%d-times", vsh), "the second configuration provider (scheme simv) was shut down %d times", vsh)
+		}
+		// (not part of the property's statement, only counted: every retrieved value closed exactly once)
+		s.prov.mu.Lock()
+		out, cl := s.prov.handedOut, s.prov.closes
+		s.prov.mu.Unlock()
+		s.vprov.mu.Lock()
+		vout, vcl := s.vprov.retrieves, s.vprov.closes
+		s.vprov.mu.Unlock()
+		if cl != out || vcl != vout {
+			r.Count("probe.retrieved_value_close_count_mismatch")
 		}
 	}
 	// a reload may only fail for a reason: the provider could not serve, served something invalid, or a component of
